@@ -160,8 +160,11 @@ def _run(repo, chk):
     chk.ob('a', acc.ref, 'nothing that can fail stands between listing the socket and firing its connect event (no disconnect without a connect)',
            not risky and not late, loc(acc, conn[0].ast), detail='; '.join(src(c) for c in risky) or '; '.join(n.text for n in late), discr='connect-certain')
     esc = None
+    no_connect = pat.test_edge(lambda tt, pol: pol == 'F' and src(tt) == acc.params[2])
     for a_ in addc:
-        esc = esc or Q.escapes(ga, [a_], lambda n: n in conn, exits=('exit',), avoid_edge=pat.test_edge(lambda tt, pol: pol == 'F' and src(tt) == acc.params[2]))
+        if pat.guarded_by(ga, a_, no_connect) is None:
+            continue        # listed on the branch on which the caller asked for no connect event
+        esc = esc or Q.escapes(ga, [a_], lambda n: n in conn, exits=('exit',), avoid_edge=no_connect)
     chk.ob('a', acc.ref, 'a listed socket gets its connect event on every path (except when the caller asked for none: TLS upgrade of a known connection)', esc is None,
            loc(acc, acc.node), path=pat.path_lines(esc) if esc else None, discr='listed-implies-connect')
     c1 = pat.fires(conn[0].ast, 'connect')[0]
@@ -232,8 +235,11 @@ def _run(repo, chk):
         reg = pat.region(gr, 'except', h.ast)
         errs = [n for n in reg if n.kind == 'stmt' and pat.fires(n.ast, 'error')]
         cls_ = [n for n in reg if n.kind == 'stmt' and any(r == 'self' and [src(a) for a in c.args] == [s3] for r, c in pat.method_calls(n.ast, '_close'))]
-        would = pat.test_edge(lambda tt, pol: pol == 'T' and isinstance(tt, ast.Compare) and 'EWOULDBLOCK' in src(tt) or
-                              (pol == 'T' and isinstance(tt, ast.Compare) and 'EAGAIN' in src(tt)))
+        def _would(tt, pol):
+            # the edge on which the error is known to be "would block": `== EWOULDBLOCK` true, `!= EWOULDBLOCK` false, `in (EAGAIN, EWOULDBLOCK)` true …
+            fc = pat.compare_fact(tt, pol)
+            return fc is not None and fc[1] in ('==', 'in', 'is') and ('EWOULDBLOCK' in fc[2] or 'EAGAIN' in fc[2] or 'EWOULDBLOCK' in fc[0] or 'EAGAIN' in fc[0])
+        would = pat.test_edge(_would)
         p1 = pat.escapes_region(gr, h, reg, lambda n: n in errs, avoid_edge=would, exits=('exit',))
         p2 = pat.escapes_region(gr, h, reg, lambda n: n in cls_, avoid_edge=would, exits=('exit',))
         chk.ob('e', rd.ref, 'a receive error other than "would block" produces an error event and closes the connection', p1 is None and p2 is None
